@@ -123,3 +123,30 @@ Proof.
   destruct (k_setslice_fast false false) eqn:E; [apply setslice_fast_only in E; destruct E; discriminate|].
   rewrite setslice_fast_on. reflexivity.
 Qed.
+
+(* ---- whole-column assignment of a column object (DataMatrix._set_col) ---- *)
+
+(* only a column that is one of the table's own columns (and row-aligned) is entered by reference *)
+Lemma setcol_by_reference_only (so own sl si : bool) :
+  k_setcol_by_reference so own sl si = true -> so = true /\ own = true /\ sl = true /\ si = true.
+Proof. destruct so, own, sl, si; vm_compute; intros H; try discriminate H; auto. Qed.
+
+(* a column value that is not one of the table's own columns (derived by arithmetic, @, slicing, or owned by
+   another table) is always stored through the normal form of its type *)
+Theorem setcol_not_own_nf (so sl si : bool) (k2 : kind) (raw : pyv) :
+  pyv_wf raw = true -> raw_ok k2 raw = true -> sl = true ->
+  res_eqv (store_setcol so false sl si k2 raw) (nf k2 raw) = true.
+Proof.
+  intros Hwf Hok ->. unfold store_setcol.
+  destruct (k_setcol_by_reference so false true si) eqn:E.
+  - apply setcol_by_reference_only in E. destruct E as (_ & E & _). discriminate E.
+  - cbn [negb]. exact (colval_nf FSetCol k2 k2 raw Hwf Hok).
+Qed.
+
+(* a column of another length is refused, whatever it holds *)
+Theorem setcol_length (so own si : bool) (k2 : kind) (raw : pyv) :
+  store_setcol so own false si k2 raw = Raise ValueError.
+Proof.
+  unfold store_setcol. destruct (k_setcol_by_reference so own false si) eqn:E; [|reflexivity].
+  apply setcol_by_reference_only in E. destruct E as (_ & _ & E & _). discriminate E.
+Qed.
